@@ -178,6 +178,7 @@ func (s *Syncer[H]) localHead(ctx context.Context) (H, error) {
 	// pending head is the latest known subjective head and a sync target
 	// if it is empty, no sync is in progress
 	pendHead := s.pending.Head()
+	verifPoint(ctx, "localHead.betweenReads")
 	// the latest stored/synced head
 	head, err := s.store.Head(ctx)
 	if !pendHead.IsZero() && (err != nil || pendHead.Height() > head.Height()) {
